@@ -219,6 +219,20 @@ impl Terminal {
 
     /// Read keys until newline.
     fn read_line_raw(&mut self) {
+        #[cfg(feature = "verif")]
+        while let Some(key) = crate::verif::next_key() {
+            let submitted = self.handle_key(key);
+            crate::verif::key_handled(crate::verif::EditorView {
+                line: self.get_current(),
+                cursor: self.visible_cursor,
+                history_index: self.history.index,
+                history: &self.history.list,
+                submitted,
+            });
+            if submitted {
+                return;
+            }
+        }
         term::enable_raw_mode();
         loop {
             // Technically redrawing of prompt could be avoided, but this method makes it much
@@ -274,6 +288,27 @@ impl Terminal {
                 rest
             }
         }
+    }
+}
+
+#[cfg(feature = "verif")]
+impl Terminal {
+    /// Line editor with a given history, without a history file.
+    pub(crate) fn verif_new(history: Vec<String>) -> Self {
+        Self {
+            stderr: io::stderr(),
+            buffer: String::with_capacity(INITIAL_BUFFER_CAPACITY),
+            cursor: 0,
+            visible_cursor: 0,
+            history: TerminalHistory {
+                index: history.len(),
+                list: history,
+                file: None,
+            },
+        }
+    }
+    pub(crate) fn verif_read(&mut self) -> Option<String> {
+        self.read().map(str::to_string)
     }
 }
 
